@@ -81,6 +81,80 @@ func vOffloading(t *testing.T, ops, impl *os.File, validator pki.Validator) {
 	}
 }
 
+// TLS offloading with SEVERAL streams on ONE transport: grpc-go creates one *peer.Peer per HTTP/2 connection
+// (server.go serveStreams: peer.NewContext(ctx, st.Peer())), so peer.FromContext returns the SAME pointer for every stream a
+// multiplexing reverse proxy sends over that connection. The REAL interceptor runs for each stream in order on contexts that
+// share one *peer.Peer; what the stream's handler sees (extractCertificate, as handleInboundStream does) is recorded per stream.
+func vOffloadingShared(t *testing.T, ops, impl *os.File, validator pki.Validator) {
+	mkc := func(cn string, dns []string) (*x509.Certificate, string) {
+		c, _, _ := vMkCert(t, cn, dns, false, nil, nil)
+		return c, url.QueryEscape(string(pem.EncodeToMemory(&pem.Block{Type: "CERTIFICATE", Bytes: c.Raw})))
+	}
+	victimCert, victimHdr := mkc("victim", []string{"victim.example.org"})
+	_, proxyHdr := mkc("attacker", []string{"attacker.example"})
+	_, thirdHdr := mkc("third", []string{"third.example"})
+	vals := map[string]string{"victim": victimHdr, "proxy": proxyHdr, "third": thirdHdr, "garbage": "!!!not a certificate"}
+	type sc struct {
+		pre     string
+		streams [][]string
+	}
+	cases := []sc{
+		{"", [][]string{{"victim"}, {"proxy"}}},
+		{"", [][]string{{"proxy"}, {"victim"}}},
+		{"", [][]string{{"victim"}, {"proxy"}, {"third"}}},
+		{"", [][]string{{"victim"}, {"garbage"}, {"proxy"}}},
+		{"", [][]string{{"victim"}, {}, {"proxy"}, {"victim"}}},
+		{"", [][]string{{"victim"}, {"victim", "proxy"}, {"third"}}},
+		{"", [][]string{{"garbage"}, {"proxy"}, {"victim"}}},
+		{"victim", [][]string{{"proxy"}}},
+		{"victim", [][]string{{"proxy"}, {"third"}, {"victim"}}},
+		{"other-authinfo", [][]string{{"victim"}, {"proxy"}}},
+		{"no-peer", [][]string{{"victim"}, {"proxy"}}},
+	}
+	icpt := newAuthenticationInterceptor("x-ssl-client-cert", validator)
+	for _, c := range cases {
+		shared := &grpcPeer.Peer{}
+		switch c.pre {
+		case "victim": // AuthInfo already holds TLS info (e.g. of an earlier stream, or of a TLS listener)
+			shared.AuthInfo = credentials.TLSInfo{State: tls.ConnectionState{PeerCertificates: []*x509.Certificate{victimCert}}}
+		case "other-authinfo":
+			shared.AuthInfo = vOtherAuthInfo{}
+		}
+		var seen []string
+		for _, st := range c.streams {
+			md := metadata.MD{}
+			for _, k := range st {
+				md.Append("x-ssl-client-cert", vals[k])
+			}
+			ctx := metadata.NewIncomingContext(context.Background(), md)
+			if c.pre != "no-peer" {
+				ctx = grpcPeer.NewContext(ctx, shared)
+			}
+			got := "-"
+			err := icpt(nil, &vStream{ctx: ctx}, nil, func(_ interface{}, stream grpcLib.ServerStream) error {
+				p, _ := grpcPeer.FromContext(stream.Context())
+				if p != nil {
+					if cert := extractCertificate(p); cert != nil && len(cert.DNSNames) > 0 {
+						got = cert.DNSNames[0]
+					}
+				}
+				return nil
+			})
+			if err != nil {
+				got = "refused"
+			}
+			seen = append(seen, got)
+		}
+		op, _ := json.Marshal(map[string]interface{}{"op": "offloadseq", "pre": c.pre, "streams": c.streams})
+		fmt.Fprintln(ops, string(op))
+		fmt.Fprintf(impl, "offloadseq %v\n", seen)
+	}
+}
+
+type vOtherAuthInfo struct{}
+
+func (vOtherAuthInfo) AuthType() string { return "other" }
+
 
 type vSvc struct{ endpoint string }
 
@@ -185,6 +259,7 @@ func TestVerifC15ServerTLS(t *testing.T) {
 	})
 	validator.EXPECT().Validate(gomock.Any()).AnyTimes().Return(nil)
 	vOffloading(t, ops, impl, validator)
+	vOffloadingShared(t, ops, impl, validator)
 	serverCfg, err := newServerTLSConfig(Config{serverCert: &serverCert, trustStore: pool, pkiValidator: validator})
 	if err != nil {
 		t.Fatal(err)
